@@ -224,7 +224,7 @@ impl IndentationVisitor {
             let eq_abs = left_end + eq_offset;
 
             let before_eq = &self.src[left_end..eq_abs];
-            if before_eq != " " {
+            if before_eq != " " && !before_eq.contains('\n') {
                 self.span_edits.push(SpanEdit {
                     start_offset: left_end,
                     end_offset: eq_abs,
